@@ -1,6 +1,78 @@
 import EupsModel.Drv.Util
+import EupsModel.Model.ShellEmit
 namespace EupsModel.Drv.C05
-open Lean EupsModel EupsModel.Drv
-/-- placeholder until the C05 model exists -/
-def handle : Handler := fun _ => throw "model C05 not built"
+open Lean EupsModel EupsModel.Drv EupsModel.ShellEmit
+
+/-- ordered environment: `[[k, v], ...]` -/
+def envOfJson (j : Json) : Except String Env := do
+  (← j.getArr?).toList.mapM fun p => do
+    match (← p.getArr?).toList with
+    | [k, v] => pure (Str.ofString (← k.getStr?), Str.ofString (← v.getStr?))
+    | _ => throw "pair expected"
+
+def envToJson (e : Env) : Json := Json.arr (e.map fun (k, v) => Json.arr #[ofStr k, ofStr v]).toArray
+
+def optOfJson (j : Json) : Except String (List (Str × Option Str)) := do
+  (← j.getArr?).toList.mapM fun p => do
+    match (← p.getArr?).toList with
+    | [k, Json.null] => pure (Str.ofString (← k.getStr?), none)
+    | [k, v] => pure (Str.ofString (← k.getStr?), some (Str.ofString (← v.getStr?)))
+    | _ => throw "pair expected"
+
+def optToJson (e : OldEnv) : Json := Json.arr (e.map fun (k, v) => Json.arr #[ofStr k, ofStrOpt v]).toArray
+
+def optsOfJson (j : Json) : Except String Opts := do
+  let sh ← (← j.getObjVal? "shell").getStr?
+  let shell ← match sh with
+    | "sh" => pure Shell.sh
+    | "zsh" => pure Shell.zsh
+    | "csh" => pure Shell.csh
+    | _ => throw s!"unknown shell {sh}"
+  pure { shell := shell, noaction := ← jbool j "noaction", verbose2 := ← jbool j "verbose2",
+         isEups := ← jbool j "isEups", fwd := ← jbool j "fwd" }
+
+def actOfJson (j : Json) : Except String Act := do
+  let op ← (← j.getObjVal? "op").getStr?
+  let k ← jstr j "k"
+  match op with
+  | "envSet" => pure (Act.envSet (← jbool j "force") (← jbool j "fwd") k (← jstr j "v"))
+  | "path" => pure (Act.path (← jbool j "force") k (← jstr j "v"))
+  | "unset" => pure (Act.unset k)
+  | "alias" => pure (Act.alias (← jbool j "force") (← jbool j "fwd") k (← jstr j "v"))
+  | _ => throw s!"unknown act {op}"
+
+/-- ops:
+* `emit`   `{old,new,aliases,oldAliases,opts}` → `{cmds:[..], text}` | `{unmodelled:true}`
+* `sheval` `{env,text}` → `{env}` | `{none:true}`
+* `acts`   `{base,acts,pinned}` → `{old,cur}` -/
+def handle : Handler := fun j => do
+  let op ← (← j.getObjVal? "op").getStr?
+  match op with
+  | "emit" =>
+    let old ← optOfJson (← j.getObjVal? "old")
+    let new ← envOfJson (← j.getObjVal? "new")
+    let al ← envOfJson (← j.getObjVal? "aliases")
+    let oal ← optOfJson (← j.getObjVal? "oldAliases")
+    let o ← optsOfJson (← j.getObjVal? "opts")
+    match emit o old new al oal with
+    | none => pure (Json.mkObj [("unmodelled", true)])
+    | some cmds => pure (Json.mkObj [("cmds", ofStrs cmds), ("text", ofStr (join cmds)),
+                                     ("final", envToJson (finalEnv o new))])
+  | "sheval" =>
+    let env ← envOfJson (← j.getObjVal? "env")
+    match shEval env (← jstr j "text") with
+    | none => pure (Json.mkObj [("none", true)])
+    | some e => pure (Json.mkObj [("env", envToJson e)])
+  | "acts" =>
+    let base ← envOfJson (← j.getObjVal? "base")
+    let acts ← (← jarr j "acts").mapM actOfJson
+    let s := runActs (← jbool j "pinned") acts base
+    let o ← optsOfJson (← j.getObjVal? "opts")
+    match emit o s.old s.cur s.aliases s.oldAliases with
+    | none => pure (Json.mkObj [("unmodelled", true)])
+    | some cmds => pure (Json.mkObj [("old", optToJson s.old), ("cur", envToJson (finalEnv o s.cur)),
+                                     ("cmds", ofStrs cmds), ("text", ofStr (join cmds)),
+                                     ("aliases", envToJson s.aliases), ("oldAliases", optToJson s.oldAliases)])
+  | _ => throw s!"unknown op {op}"
+
 end EupsModel.Drv.C05
